@@ -351,22 +351,27 @@ def observe_session(case):
             'style': style, 'ix': ix, 'lab': case.get('lab', ''), 'calls': case['calls'], 'runs': runs}
 
 
+IN_PLACE = ('poke', 'put')
+
+
 def derive(r, d, carrier, n0, offsets, ix):
     """the caller's own action between two calls (Fill.tla Derive), done the way a caller does it with pandas / numpy; `poke`
-    edits the object IN PLACE (a read-only array - what pandas hands out as .values - has to be copied first)"""
+    (an observation is withdrawn) and `put` (one arrives) edit the object IN PLACE (a read-only array - what pandas hands out
+    as .values - has to be copied first)"""
     kind, nan = d['kind'], float('nan')
+    v = value_of(900 + d['i']) if kind == 'put' else nan          # Fill.tla PutValue
     if carrier in ('arr1', 'arr2'):
         if kind == 'extend':
             return np.concatenate([r, np.full((d['k'],) + r.shape[1:], nan)])
         if kind == 'lag':
             return np.concatenate([np.full((1,) + r.shape[1:], nan), r[:-1]]) if r.shape[0] else r.copy()
-        if kind == 'poke':
+        if kind in IN_PLACE:
             if not r.flags.writeable:
                 r = np.array(r)
             if r.ndim == 1 or d['j'] == 0:
-                r[d['i'] - 1] = nan
+                r[d['i'] - 1] = v
             else:
-                r[d['i'] - 1, d['j'] - 1] = nan
+                r[d['i'] - 1, d['j'] - 1] = v
             return r
         if kind == 'head':
             return r[:-1]
@@ -386,13 +391,13 @@ def derive(r, d, carrier, n0, offsets, ix):
         return r.reindex(make_index(list(range(1, n0 + d['k'] + 1)), ix, offsets))
     if kind == 'lag':
         return r.shift(1)
-    if kind == 'poke':
+    if kind in IN_PLACE:
         if carrier == 'ser':
-            r.iloc[d['i'] - 1] = nan
+            r.iloc[d['i'] - 1] = v
         elif d['j'] == 0:
-            r.iloc[d['i'] - 1, :] = nan
+            r.iloc[d['i'] - 1, :] = v
         else:
-            r.iloc[d['i'] - 1, d['j'] - 1] = nan
+            r.iloc[d['i'] - 1, d['j'] - 1] = v
         return r
     if kind == 'head':
         return r.iloc[:-1]
@@ -414,11 +419,11 @@ def observe_psession(case):
     """a process session (Fill.tla): calls and the caller's own actions, in order, in this one process.  acts: {a: call, src:
     x / y / cur, ms, lim} or {a: der, d}.  x and y are built once; `cur` is the working object (the previous result or what
     the caller derived from it).  After every step: the working object, both inputs re-read, the object passed as input"""
-    from pyg_base import df_fillna
+    from pyg_base import df_fillna, nona
     f, g, offsets, style = case['f'], case['g'], case.get('offsets') or S2C_OFFSETS, case.get('style', 0)
     k, n0 = len(f['cols']), len(f['rows'])
     ix = ix_for(f, case.get('ix', 'date'))
-    pandas_only = any(a['a'] == 'der' and a['d']['kind'] in LABEL_KINDS for a in case['acts'])
+    pandas_only = any(a['a'] != 'call' and a['d']['kind'] in LABEL_KINDS for a in case['acts'])
     carriers = [c for c in carriers_of(f) if not (pandas_only and c in ('arr1', 'arr2'))]
     if any('frac' in a['d'] for a in case['acts']):
         carriers = [carriers[case.get('style', 0) % len(carriers)]]      # the recorded history is the one of this carrier
@@ -428,16 +433,23 @@ def observe_psession(case):
         x, y = build(f, carrier, offsets, ix, style), build(g, carrier, offsets, ix, style)
         cur, steps = None, []
         for a in acts:
-            if a['a'] == 'der':
+            if a['a'] in ('der', 'edit'):
+                tgt = x if a['a'] == 'edit' else cur
                 if 'frac' in a['d']:             # C2S: the row is chosen on the object as it is now (and recorded); an input
-                    d, nr = a['d'], cur.shape[0]     # object handed back by an empty method list is copied, not edited
-                    a['d'] = ({'kind': 'poke', 'k': 0, 'i': 1 + int(d['frac'] * nr), 'j': d['j']} if nr and cur is not x and cur is not y
+                    d, nr = a['d'], tgt.shape[0]     # object handed back by an empty method list is copied, not edited
+                    a['d'] = ({'kind': d['kind'], 'k': 0, 'i': 1 + int(d['frac'] * nr), 'j': d['j']} if nr and (a['a'] == 'edit' or (cur is not x and cur is not y))
                               else {'kind': 'copy', 'k': 0, 'i': 0, 'j': 0})
                 try:
                     with warnings.catch_warnings():
                         warnings.simplefilter('ignore')
-                        cur = derive(cur, a['d'], carrier, n0, offsets, ix)
-                    out = enc_out(cur, carrier, k, offsets, ix, style)
+                        tgt = derive(tgt, a['d'], carrier, n0, offsets, ix)
+                    if a['a'] == 'der':
+                        cur = tgt
+                    elif a['d']['kind'] in IN_PLACE and tgt is not x:
+                        raise AssertionError('the input object was not edited in place')
+                    out = enc_out(tgt, carrier, k, offsets, ix, style)
+                except AssertionError:
+                    raise
                 except Exception as e:
                     out = exc_out(e)
                 inp_after = out
@@ -446,7 +458,10 @@ def observe_psession(case):
                 try:
                     with warnings.catch_warnings():
                         warnings.simplefilter('ignore')
-                        res = df_fillna(inp, render_methods(a['ms'], style), limit=None if a['lim'] == 0 else a['lim'])
+                        if a['ms'] == [['nona', 0]] and a['lim'] == 0 and style % 3 == 1:
+                            res = nona(inp)                  # the function form of the same method
+                        else:
+                            res = df_fillna(inp, render_methods(a['ms'], style), limit=None if a['lim'] == 0 else a['lim'])
                 except Exception as e:
                     res, out = RAISED, exc_out(e)
                 if res is not RAISED:
@@ -489,7 +504,7 @@ def case_key(o, carrier=None):
     elif o['op'] == 'nona':
         op, form = 'nona', 'edge%d' % o['edge']
     elif o['op'] == 'psession':
-        op, form = 'psession', '+'.join(a['src'] if a['a'] == 'call' else 'der:' + a['d']['kind'] for a in o['acts'])
+        op, form = 'psession', '+'.join(a['src'] if a['a'] == 'call' else a['a'] + ':' + a['d']['kind'] for a in o['acts'])
         ms = [m for a in o['acts'] for m in a['ms']]
     else:
         op, form = 'session', '+'.join(c['src'] + ':' + c['obj'] for c in o['calls'])
@@ -612,20 +627,24 @@ def psession_chunk(cases):
             deferred.append(o)
         else:
             for r in o['runs']:
-                cr, win = r['carrier'], None
+                cr, win, fnow = r['carrier'], None, f
                 for s, h in zip(r['steps'], case['hist']):
                     w = h['want'][0]
                     before = len(viol)
-                    src = {'x': f, 'y': g}.get(h['src'], win)
-                    if s['after'] != exp_after(f, cr) or s['after_y'] != exp_after(g, cr):
+                    src = {'x': fnow, 'y': g}.get(h['src'], win)
+                    if h['a'] == 'edit':
+                        fnow = w                 # the caller edited x in place: TLC printed what it holds now
+                    if s['after'] != exp_after(fnow, cr) or s['after_y'] != exp_after(g, cr):
                         viol.append(('input_modified', case_key(o, cr), {'after': s['after'], 'after_y': s['after_y']}))
+                    elif h['a'] == 'edit':
+                        continue
                     elif h['a'] == 'der':
                         if s['out']['kind'] != 'val' or s['out']['dim'] != DIM[cr] or s['out']['cols'] != w['cols'] or (cr in ('ser', 'df') and s['out']['rows'] != w['rows']):
                             viol.append(('derived_input', case_key(o, cr), {'expected': w, 'observed': s['out']}))
                     elif s['inp_after']['cols'] != src['cols'] or (cr in ('ser', 'df') and s['inp_after']['rows'] != src['rows']):
                         viol.append(('input_modified', case_key(o, cr), {'input_after': s['inp_after'], 'input_before': src}))
                     else:
-                        compare_run(viol, o, cr, s['out'], s['after'], f, w, w['cols'])
+                        compare_run(viol, o, cr, s['out'], s['after'], fnow, w, w['cols'])
                     if len(viol) > before:
                         break            # later steps build on this one
                     win = w
@@ -829,7 +848,8 @@ NO_D = {'kind': '', 'k': 0, 'i': 0, 'j': 0}
 
 def rand_psession(rng):
     """a process session at random: 2-4 calls on a vector / frame x, on another input y of the same shape and on the working
-    object, with the caller's derivations in between (the row of a poke is chosen when the history is run)"""
+    object, with the caller's derivations of the working object / in-place edits of x in between (the row of an in-place
+    edit is chosen when the history is run)"""
     f, offs = rand_frame(rng)
     n, k = len(f['rows']), len(f['cols'])
     g = {'rows': list(f['rows']), 'cols': [rand_column(rng, n) for _ in range(k)]}
@@ -847,25 +867,30 @@ def rand_psession(rng):
     acts = [call('x')]
     if not acts[0]['ms'] and rng.random() < 0.8:
         acts[0]['ms'] = [[rng.choice(ALL_NAMES[:2] + ALL_NAMES[3:]), 0]]
-    ncalls, ext, nder = rng.choice([2, 2, 3, 4]), 0, 0
+    ncalls, ext, nown, focus = rng.choice([2, 2, 3, 4]), 0, 0, ''
     while sum(a['a'] == 'call' for a in acts) < ncalls:
         last = [a for a in acts if a['a'] == 'call'][-1]['ms']
-        if (nder == 0 and rng.random() < 0.55) or (nder == 1 and rng.random() < 0.25):
-            kind = rng.choice(['extend', 'extend', 'calendar', 'lag', 'lag', 'poke', 'poke', 'head', 'tail', 'copy', 'values', 'arith'])
+        u = rng.random()
+        if focus != 'x' and ((nown == 0 and u < 0.5) or (nown == 1 and u < 0.25)):
+            kind = rng.choice(['extend', 'extend', 'calendar', 'lag', 'lag', 'poke', 'poke', 'put', 'head', 'tail', 'copy', 'values', 'arith'])
             if kind in ('extend', 'calendar') and ext >= 3:
                 kind = 'lag'
-            if kind == 'poke':
-                d = {'kind': 'poke', 'k': 0, 'frac': rng.random(), 'i': 0, 'j': rng.randrange(0, k + 1) if k > 1 else 0}
+            if kind in IN_PLACE:
+                d = {'kind': kind, 'k': 0, 'frac': rng.random(), 'i': 0, 'j': rng.randrange(0, k + 1) if k > 1 else 0}
             elif kind in ('extend', 'calendar'):
                 d = {'kind': kind, 'k': rng.choice([0, 1, 2, 3]) if kind == 'calendar' else rng.choice([1, 2, 3]), 'i': 0, 'j': 0}
                 ext += 1
             else:
                 d = {'kind': kind, 'k': 0, 'i': 0, 'j': 0}
             acts.append({'a': 'der', 'src': 'cur', 'ms': [], 'lim': 0, 'd': d})
-            nder += 1
+            nown, focus = nown + 1, 'cur'
+        elif focus != 'cur' and n and ((nown == 0 and u > 0.85) or (nown == 1 and u > 0.7)):
+            d = {'kind': rng.choice(IN_PLACE), 'k': 0, 'frac': rng.random(), 'i': 0, 'j': rng.randrange(0, k + 1) if k > 1 else 0}
+            acts.append({'a': 'edit', 'src': 'x', 'ms': [], 'lim': 0, 'd': d})      # the input object itself is edited in place
+            nown, focus = nown + 1, 'x'
         else:
-            acts.append(call('cur' if nder else rng.choice(['x', 'y', 'y', 'cur']), last))
-            nder = 0
+            acts.append(call(focus or rng.choice(['x', 'y', 'y', 'cur']), last))
+            nown, focus = 0, ''
     return {'op': 'psession', 'f': f, 'g': g, 'acts': acts, 'style': rng.randrange(0, 12), 'offsets': offs,
             'ix': rng.choice(['date', 'date', 'range', 'int', 'str', 'float'])}
 
@@ -902,9 +927,9 @@ def replay(ctx, body):
 
 def pfamily(case):
     """the stratum of a process session: which object the later calls take (y: another input of the same shape; der: an object
-    derived from the result; x: the input again; cur: the result itself) and whether the last call repeats the first method list"""
+    derived from the result; edit: the input x edited in place; x: the input again as it is; cur: the result itself) and whether the last call repeats the first method list"""
     calls = [h for h in case['hist'] if h['a'] == 'call']
-    fam = 'y' if any(h['src'] == 'y' for h in calls) else 'der' if any(h['a'] == 'der' for h in case['hist']) else calls[-1]['src']
+    fam = 'y' if any(h['src'] == 'y' for h in calls) else 'der' if any(h['a'] == 'der' for h in case['hist']) else 'edit' if any(h['a'] == 'edit' for h in case['hist']) else calls[-1]['src']
     return fam + ('_same' if calls[-1]['ms'] == calls[0]['ms'] else '_other')
 
 
